@@ -38,6 +38,8 @@ ASSUMPTIONS = [
     "A step accepted by the documented chattering rule (TDS.chatter) counts as having passed the routine's test; such "
     "steps are counted in the evidence.",
     "TDS.test_init failing counts as 'failed initialisation' (ANDES itself logs 'Initialization failed!!' and adds 1 to the exit code).",
+    "A converged power flow whose bus voltage magnitudes are not all positive (a mirror root of the polar equations, reached under "
+    "heavy overload) is judged on its flags only.",
     "Unparsable input is restricted to files an independent reader rejects: missing, empty, truncated zip / JSON, "
     "random bytes, unknown extension.",
 ]
@@ -216,6 +218,12 @@ def pf_case(ctx, c):
         for k, i in enumerate(ss.Slack.idx.v):
             res['gen'][('slacks', opf._key(i))] = (float(ss.Slack.p.v[k]), float(ss.Slack.q.v[k]))
         V = c01.vvec(net, res)
+        if np.any(np.asarray(ss.Bus.v.v) <= 0):
+            # a root of the polar equations with a negative magnitude (|v| at angle + pi): ANDES' voltage-dependent load
+            # switching is defined on the signed value there, the oracle's on |V|; the flags are judged, the balance is not
+            ctx.count('pf:negative_magnitude_root_balance_not_judged')
+            ctx.nontrivial(dict(c=brief), sample=dict(fault=fault, outcome='converged to a negative-magnitude root (flags judged only)', method=c['method']))
+            return
         if fault == 'zero_z':
             # ANDES models an exact zero impedance as 1e-8 (1 + j): with an admittance of 1e8 the balance oracle would
             # amplify rounding of the voltages beyond any useful bound; only the flags are judged
@@ -729,7 +737,7 @@ def cli_cases(draw):
         files.append(dict(kind=draw(st.sampled_from(KINDS)), fmt=draw(st.sampled_from(['xlsx', 'json', 'raw', 'm'])),
                           cut=draw(st.floats(0.05, 0.95)), seed=draw(st.integers(0, 10 ** 6))))
     return dict(files=files, routine=draw(st.sampled_from(['pflow', 'pflow', 'tds', 'eig'])), pool=draw(st.booleans()),
-                ncpu=draw(st.sampled_from([1, 2, 4])))
+                ncpu=draw(st.sampled_from([1, 2, 4])), entry=draw(st.sampled_from(['api', 'api', 'api', 'api', 'module', 'script'])))
 
 
 _TEMPLATES = {}
@@ -883,7 +891,7 @@ def cli_case(ctx, c):
         nm, good = make_file(d, k, f, c['routine'])
         names.append(nm)
         goods.append(good)
-    brief = dict(files=[dict(kind=f['kind'], fmt=f['fmt']) for f in c['files']], routine=c['routine'], pool=c['pool'], ncpu=c['ncpu'])
+    brief = dict(files=[dict(kind=f['kind'], fmt=f['fmt']) for f in c['files']], routine=c['routine'], pool=c['pool'], ncpu=c['ncpu'], entry=c.get('entry', 'api'))
     kw = dict(input_path=d, cli=True, no_output=True, default_config=True, verbose=50, routine=c['routine'], ncpu=c['ncpu'], pool=c['pool'])
     if c['routine'] == 'tds':
         kw['tf'] = 2.0
@@ -913,9 +921,32 @@ def cli_case(ctx, c):
     if all_good and (raised is not None or code != 0):
         ctx.fail('cli_reports_failure_for_good_cases', dict(case=brief, code=code, raised=raised), sig=dict(cli=True, good=True, routine=c['routine']))
         return
+    if c.get('entry', 'api') != 'api' and (any_bad or all_good):
+        # the real process: `python -m andes run ...` and the console-script entry `sys.exit(andes.cli.main())`
+        import subprocess
+        import sys
+        argv = ['run'] + names + ['-p', d, '-n', '--no-pbar', '--no-preamble', '-r', c['routine'], '--ncpu', str(c['ncpu'])]
+        if c['routine'] == 'tds':
+            argv += ['--tf', '2.0']
+        if c['pool']:
+            argv += ['--pool']
+        head = [sys.executable, '-m', 'andes'] if c['entry'] == 'module' else \
+            [sys.executable, '-c', 'import sys; from andes.cli import main; sys.exit(main())']
+        env = dict(os.environ)
+        if os.environ.get('VERIF_REPO'):
+            env['PYTHONPATH'] = os.environ['VERIF_REPO'] + os.pathsep + env.get('PYTHONPATH', '')
+        r = subprocess.run(head + ['-v', '40'] + argv, cwd=d, env=env, stdout=subprocess.DEVNULL, stderr=subprocess.DEVNULL, timeout=900)
+        ctx.count('cli:process:%s:%s' % (c['entry'], 'rc=0' if r.returncode == 0 else 'rc=nz'))
+        if any_bad and r.returncode == 0:
+            ctx.fail('process_exit_status_zero_although_a_case_failed', dict(case=brief, entry=c['entry'], argv=argv[:8]), sig=dict(cli=True, entry=c['entry']))
+            return
+        if all_good and r.returncode != 0:
+            ctx.fail('cli_reports_failure_for_good_cases', dict(case=brief, entry=c['entry'], rc=r.returncode), sig=dict(cli=True, good=True, entry=c['entry']))
+            return
     if any_bad:
         ctx.nontrivial(dict(c=brief), sample=dict(files=['%s.%s' % (f['kind'], f['fmt']) for f in c['files']], routine=c['routine'],
-                                                  backend='pool' if c['pool'] else 'process', outcome=raised or ('exit code %s' % code)))
+                                                  backend='pool' if c['pool'] else 'process', entry=c.get('entry', 'api'),
+                                                  outcome=raised or ('exit code %s' % code)))
 
 
 def camp_cli(ctx):
